@@ -397,7 +397,7 @@ fn rendezvous_cmd(a: &Args) {
     let mut rng = StdRng::seed_from_u64(seed);
     let mut w = BufWriter::new(File::create(out).unwrap());
     let cores = std::thread::available_parallelism().map(|n| n.get()).unwrap_or(1);
-    let contexts = ["user", "user_par", "default", "batch", "batch_then_pool", "batch_nested", "batch_siblings", "default_outer_batch", "async", "foreign"];
+    let contexts = ["user", "user_par", "default", "batch", "batch_then_pool", "batch_nested", "batch_siblings", "default_outer_batch", "default_neighbour", "async", "foreign"];
     let hint_sets: Vec<Vec<u8>> = vec![vec![3], vec![1], vec![5], vec![1, 5], vec![2, 3, 4], vec![1, 1, 2]];
     let (mut runs, mut stalls, mut skipped) = (0usize, 0usize, 0usize);
     let mut samples = Vec::new();
@@ -406,7 +406,10 @@ fn rendezvous_cmd(a: &Args) {
         for ctxname in contexts {
             let hints = hint_sets.choose(&mut rng).unwrap().clone();
             let extra = *[0usize, 1, 3].choose(&mut rng).unwrap();
-            if (ctxname == "default" && cores < width) || (ctxname == "default_outer_batch" && cores < width + 1) {
+            if (ctxname == "default" && cores < width)
+                || (ctxname == "default_outer_batch" && cores < width + 1)
+                || (ctxname == "default_neighbour" && cores.min(wmax) != width)
+            {
                 skipped += 1;
                 continue;
             }
@@ -478,6 +481,25 @@ fn rendezvous_cmd(a: &Args) {
                             let mut d = b.build();
                             std::thread::sleep(Duration::from_millis(12));
                             d.dispatch(&world);
+                        }
+                        "default_neighbour" => {
+                            // a dispatcher's default pool is its own: another default-pool dispatcher that is busy
+                            // (one of its systems stays inside run meanwhile) takes nothing away from it
+                            use std::sync::atomic::{AtomicBool, Ordering};
+                            let started = Arc::new(AtomicBool::new(false));
+                            let release = Arc::new(AtomicBool::new(false));
+                            let mut nb = DispatcherBuilder::new()
+                                .with(Blocker { started: started.clone(), release: release.clone() }, "blocker", &[])
+                                .build_async(World::empty());
+                            nb.dispatch();
+                            let t0 = std::time::Instant::now();
+                            while !started.load(Ordering::SeqCst) && t0.elapsed() < Duration::from_secs(10) {
+                                std::thread::sleep(Duration::from_millis(1));
+                            }
+                            let mut d = rv_builder(&rv, &hints).build();
+                            d.dispatch(&world);
+                            release.store(true, Ordering::SeqCst);
+                            nb.wait();
                         }
                         "default_outer_batch" => {
                             // default pool; the rendezvous systems sit next to a narrow batch registered first
